@@ -2,6 +2,7 @@ package world
 
 import (
 	"net/http"
+	"reflect"
 
 	"github.com/charmbracelet/log"
 
@@ -103,7 +104,23 @@ func Build(s *Setup, reqs []*Req, o BuildOpts) *World {
 	}
 	f.AutoHead(s.AutoHead)
 	if s.Wrapper {
-		f.HandlerWrapper(func(h flamego.Handler) flamego.Handler { return h })
+		rec := s.WrapperRec
+		f.HandlerWrapper(func(h flamego.Handler) flamego.Handler {
+			hv := reflect.ValueOf(h)
+			if !rec || hv.Kind() != reflect.Func || hv.Type().IsVariadic() {
+				return h
+			}
+			// Same signature, so dependency injection is unaffected; each call leaves a note, so a
+			// handler wrapped twice (or not at all) answers differently from one wrapped once.
+			return reflect.MakeFunc(hv.Type(), func(args []reflect.Value) []reflect.Value {
+				if l := sched.CurrentLocal(); l != nil {
+					if q, ok := l.Ref.(*Req); ok && q != nil {
+						q.Note("via-wrapper")
+					}
+				}
+				return hv.Call(args)
+			}).Interface()
+		})
 	}
 	for i := 0; i < s.Befores; i++ {
 		stop := s.BeforeStop && i == s.Befores-1
